@@ -177,6 +177,37 @@ let do_spec (p : Position.pos) : string =
     (if Abs.spec_legal_position p then 1 else 0) (if Abs.make_refines p then 1 else 0)
     (if MakeSpec.make_spec_check p then 1 else 0)
 
+(* one session: lines separated by \n; answer = per line the classes of what it printed, lines joined by ';' *)
+let out_class (o : Session.out) : string =
+  match o with
+  | Session.OReadyOk -> "readyok" | Session.ONoPositionEval -> "noposeval" | Session.OEval v -> "eval:" ^ z_to_string v
+  | Session.OInvalidFen -> "invalidfen" | Session.OInvalidMove -> "invalidmove" | Session.OUciInfo -> "uci"
+  | Session.ONoPositionGo -> "noposgo"
+  | Session.OSearch evs ->
+    (match Stdlib.List.rev evs with
+     | SearchImp.EvBestMoveNone :: _ -> "search:0000"
+     | SearchImp.EvBestMove _ :: _ -> "search:move"
+     | _ -> "search:?")
+  | Session.OInvalidDepth -> "invaliddepth" | Session.ONoPositionPerft -> "noposperft"
+  | Session.OPerft (rows, total) -> Printf.sprintf "perft:%s:%d" (z_to_string total) (Stdlib.List.length rows)
+  | Session.OTPerft (rows, total) -> Printf.sprintf "tperft:%s:%d" (z_to_string total) (Stdlib.List.length rows)
+  | Session.OTostr -> "tostr" | Session.OHelp -> "help"
+
+let do_session (script : string) : string =
+  let lines = Stdlib.String.split_on_char '\n' script in
+  let buf = Buffer.create 256 in
+  let rec go s = function
+    | [] -> Buffer.contents buf
+    | l :: rest ->
+      (match Session.handle Session.stub_search s Session.quiet_env (coq_string l) with
+       | Base.Panic w -> Buffer.add_string buf (panic_text w); Buffer.contents buf
+       | Base.Ok (s', outs) ->
+         Buffer.add_string buf (Stdlib.String.concat "," (Stdlib.List.map out_class outs));
+         Buffer.add_string buf (Printf.sprintf "|%d" (int_of_z s'.Session.s_log));
+         if s'.Session.s_quit then (Buffer.add_string buf ";QUIT"; Buffer.contents buf)
+         else (if rest <> [] then Buffer.add_char buf ';'; go s' rest)) in
+  go Session.sess0 lines
+
 let handle (line : string) : string =
   match Stdlib.String.split_on_char '\t' line with
   | ["POS"; fen] -> (match load_fen fen with Error e -> e | Stdlib.Ok p -> do_pos p)
@@ -202,6 +233,7 @@ let handle (line : string) : string =
     (match parse_mv (unhex hx) with
      | None -> "ERR"
      | Some m -> Printf.sprintf "OK %d %d %d" (int_of_z m.Make.mfrom) (int_of_z m.Make.mto) (kind_code m.Make.mpromo))
+  | ["SESS"; hx] -> do_session (unhex hx)
   | ["ATT"; args] ->
     (match Stdlib.List.map int_of_string (Stdlib.String.split_on_char ' ' args) with
      | [a; f; t; bl; k] ->
